@@ -121,6 +121,7 @@ func drawConfig(r *rand.Rand, ps *PropSpec) world.Config {
 	cfg.LongIDs = r.Intn(12) == 0
 	cfg.TraceLog = r.Intn(8) == 0
 	cfg.ScratchReads = r.Intn(6) == 0
+	cfg.NilTrie = r.Intn(3) == 0
 	return cfg
 }
 
